@@ -221,3 +221,128 @@ func ruleCarry(prog *Program, rep *Report, floor int, inScope func(fd *ast.FuncD
 		rep.Errorf("B-carry examined %d loops (floor %d)", total, floor)
 	}
 }
+
+// B-accreset: a positional accumulator - a local updated as x = x<<k | d or x = x*K + d inside a
+// loop - collects the digits of one number or escape. It has to start from zero for each of them:
+// where the digit loop sits in a case clause of an outer loop, the accumulator is declared in that
+// clause or assigned a constant there before the loop. Declared further out and never reset, the
+// second escape of a string starts from the first one's value.
+func ruleAccumulatorReset(prog *Program, rep *Report, floor int, rels ...string) {
+	rep.Rules = append(rep.Rules, "B-accreset: every local positional accumulator (x = x<<k | d, x = x*K + d in a loop) whose digit loop sits inside a case clause or loop body of an outer loop is declared, or assigned a constant, inside that enclosing clause or body before the digit loop: it starts from zero for every number or escape")
+	n := 0
+	for _, rel := range rels {
+		pk := prog.Pkg(rel)
+		if pk == nil {
+			continue
+		}
+		info := pk.TypesInfo
+		for _, f := range pk.Syntax {
+			if strings.HasSuffix(prog.Fset.Position(f.Pos()).Filename, "_test.go") {
+				continue
+			}
+			for _, d := range f.Decls {
+				fd, ok := d.(*ast.FuncDecl)
+				if !ok || fd.Body == nil {
+					continue
+				}
+				var path []ast.Node
+				ast.Inspect(fd.Body, func(k ast.Node) bool {
+					if k == nil {
+						path = path[:len(path)-1]
+						return true
+					}
+					path = append(path, k)
+					as, ok := k.(*ast.AssignStmt)
+					if !ok || as.Tok != token.ASSIGN || len(as.Lhs) != 1 || len(as.Rhs) != 1 {
+						return true
+					}
+					id, ok := as.Lhs[0].(*ast.Ident)
+					if !ok {
+						return true
+					}
+					o := info.Uses[id]
+					if o == nil {
+						return true
+					}
+					// x = (x << k) | ..  or  x = x*K + ..
+					positional := false
+					if be, ok := ast.Unparen(as.Rhs[0]).(*ast.BinaryExpr); ok && (be.Op == token.OR || be.Op == token.ADD) {
+						if in, ok := ast.Unparen(be.X).(*ast.BinaryExpr); ok && (in.Op == token.SHL || in.Op == token.MUL) && useObj(info, in.X) == o {
+							if tv, ok := info.Types[in.Y]; ok && tv.Value != nil {
+								positional = true
+							}
+						}
+					}
+					if !positional {
+						return true
+					}
+					// innermost loop containing the update, and the nearest case clause / loop body outside it
+					li := -1
+					for i := len(path) - 2; i >= 0; i-- {
+						switch path[i].(type) {
+						case *ast.ForStmt, *ast.RangeStmt:
+							li = i
+						}
+						if li >= 0 {
+							break
+						}
+					}
+					if li < 0 {
+						return true
+					}
+					var scope ast.Node
+					hasOuterLoop := false
+					for i := li - 1; i >= 0; i-- {
+						switch x := path[i].(type) {
+						case *ast.CaseClause:
+							if scope == nil {
+								scope = x
+							}
+						case *ast.ForStmt:
+							if scope == nil {
+								scope = x.Body
+							}
+							hasOuterLoop = true
+						case *ast.RangeStmt:
+							if scope == nil {
+								scope = x.Body
+							}
+							hasOuterLoop = true
+						}
+					}
+					if scope == nil || !hasOuterLoop {
+						return true
+					}
+					n++
+					loop := path[li]
+					reset := o.Pos() >= scope.Pos() && o.Pos() < loop.Pos() // declared in the clause before the loop
+					ast.Inspect(scope, func(q ast.Node) bool {
+						a2, ok := q.(*ast.AssignStmt)
+						if !ok || a2.Pos() >= loop.Pos() || len(a2.Lhs) != len(a2.Rhs) {
+							return true
+						}
+						for i, l := range a2.Lhs {
+							if useObj(info, l) == o {
+								if tv, ok := info.Types[a2.Rhs[i]]; ok && tv.Value != nil {
+									reset = true
+								}
+							}
+						}
+						return true
+					})
+					key := fmt.Sprintf("%s.%s:accumulator:%s", rel, funcKey(fd), o.Name())
+					if reset {
+						rep.Discharge("B-accreset", key, prog.Pos(as.Pos()), "declared or reset in the enclosing clause before the digit loop")
+					} else {
+						rep.Violate(Finding{Rule: "B-accreset", Key: key, Pos: prog.Pos(as.Pos()), Msg: fmt.Sprintf("%s accumulates digits in %s, which is neither declared nor reset inside the clause that holds the digit loop: the next number or escape starts from the previous one's value", funcKey(fd), o.Name())})
+					}
+					return true
+				})
+			}
+		}
+	}
+	rep.Eval(n)
+	if n < floor {
+		rep.Errorf("B-accreset examined %d accumulators (floor %d)", n, floor)
+	}
+}
